@@ -22,6 +22,14 @@ CHECKS = {
                      'wrappers forward every parameter and their verdict depends on the iterator only, every completing path of the '
                      'drivers runs the document-wide reference check. Equality of verdicts over all documents/sources is not decided.',
                 note=NOTE),
+    'C05': dict(ref='DESIGN.md §2 C05', technique='CFG must-pass-through (error flush), table extraction (encoder lexical table)',
+                text='Partial: no collected encode error is dropped on any path of XsdElement/XsdGroup.raw_encode, every built-in whose '
+                     'python type has a non-lexical str() has a repo encoder, atomic encoders validate what they return. '
+                     'Round-trip equality and validity of encoder output for all data are not decided.', note=NOTE),
+    'C07': dict(ref='DESIGN.md §2 C07', technique='CFG must-pass-through and dominance, reaching definitions, control-dependence path conditions',
+                text='Partial: the xsi:type pipeline (lookup, derivation, block, abstract, rebound type used for content and attributes) '
+                     'is complete on every path; the path condition of nil acceptance; block levels and abstract refusal. Derivation '
+                     'reachability over arbitrary type graphs and value-space comparison of fixed values are not decided.', note=NOTE),
 }
 NOT_APPLICABLE = {
     'C06': 'equivalence of lazy and eager traversals quantifies over runtime chunkings of runtime trees; no structural necessary '
@@ -31,6 +39,6 @@ NOT_APPLICABLE = {
     'C16': 'set semantics of hand-written case splits over namespace constraints can only be decided by evaluating them over the '
            'enumerated domain (execution); shape rules are blind to the defect quoted in the property',
 }
-for _p in ('C05', 'C07', 'C08', 'C09', 'C10', 'C11', 'C12', 'C13', 'C14', 'C17', 'C18', 'C19', 'C20'):
+for _p in ( 'C08', 'C09', 'C10', 'C11', 'C12', 'C13', 'C14', 'C17', 'C18', 'C19', 'C20'):
     NOT_APPLICABLE.setdefault(_p, PENDING)
 FIX_COMMITS = ['0d39fae', 'ee7fbf0']
